@@ -3,6 +3,7 @@
   `FullEncoding` object, prints the generated core constraints in the S-expression form of FormulaIO.
 -/
 import GasolVerif.Models.Encoding
+import GasolVerif.Models.EncodingOrder
 import GasolVerif.Models.FormulaIO
 namespace GasolVerif.Enc
 open GasolVerif.Formula
@@ -72,22 +73,41 @@ def injPart (I : Inst) (mode : String) : List F × Bool :=
   else
     ([], svsOk I && intTermsOk I)
 
-/-- ENC: `ok <instOk> <all raw trees well sorted> <premises of the injectivity theorem>`, then the built core
-    constraints, then `#inj` and the built injectivity constraints; tab separated -/
-def handleEnc (bs b0 lim mode term instrs src tgt terms : String) : String :=
+def parsePairs (s : String) : Option (List OrderPair) :=
+  (splitNE' s ";").mapM fun p =>
+    match p.splitOn "," with
+    | [b, a, bs, as] => do
+      let b ← b.toNat?
+      let a ← a.toNat?
+      some { bef := b, aft := a, befStore := bs == "1", aftStore := as == "1" }
+    | _ => none
+
+/-- ENC: `ok <instOk> <all raw trees well sorted> <premises of the injectivity theorem> <premises of the order theorems>`,
+    then the built core constraints, `#inj` and the injectivity constraints, `#order` and the order constraints
+    (direct memory encoding only; with uninterpreted theta values also their `distinct` constraint); tab separated -/
+def handleEnc (bs b0 lim mode term instrs src tgt terms memenc pairs ls ledges : String) : String :=
   match parseInst bs b0 lim (if mode == "uf" then "1" else "0") term instrs src tgt terms with
   | none => "error:parse"
   | some I =>
-    match coreRaw I, coreBuilt I with
-    | some raws, some built =>
+    match coreRaw I, coreBuilt I, parsePairs pairs with
+    | some raws, some built, some ps =>
       let (injRaws, injOk) := injPart I mode
-      let ws := raws.all F.ws && injRaws.all F.ws
-      match injRaws.mapM (fun f => match build f with | .ok r => some r | .error _ => none) with
-      | none => "error:constructor-raises"
-      | some injBuilt =>
-        s!"ok {if instOk I then 1 else 0} {if ws then 1 else 0} {if injOk then 1 else 0}" ++ "\t" ++
-          "\t".intercalate (built.map showF ++ ["#inj"] ++ injBuilt.map showF)
-    | none, _ => "error:stack-variable-without-term"
-    | _, none => "error:constructor-raises"
+      let lsN := (splitNE' ls ",").filterMap String.toNat?
+      let le := (splitNE' ledges ";").filterMap fun p => match p.splitOn "," with
+        | [a, b] => match a.toNat?, b.toNat? with
+          | some x, some y => some (x, y)
+          | _, _ => none
+        | _ => none
+      let ordRaws := (if memenc == "direct" then orderRaw I ps else lRaw I lsN le) ++ (if I.thetaUF && I.instrs.length > 1 then [thetaDistinctRaw I] else [])
+      let ordOk := orderOk I && thetasOk I
+      let ws := raws.all F.ws && injRaws.all F.ws && ordRaws.all F.ws
+      match buildAll injRaws, buildAll ordRaws with
+      | some injBuilt, some ordBuilt =>
+        s!"ok {if instOk I then 1 else 0} {if ws then 1 else 0} {if injOk then 1 else 0} {if ordOk then 1 else 0}" ++ "\t" ++
+          "\t".intercalate (built.map showF ++ ["#inj"] ++ injBuilt.map showF ++ ["#order"] ++ ordBuilt.map showF)
+      | _, _ => "error:constructor-raises"
+    | none, _, _ => "error:stack-variable-without-term"
+    | _, none, _ => "error:constructor-raises"
+    | _, _, none => "error:parse-pairs"
 
 end GasolVerif.Enc
